@@ -84,6 +84,11 @@ type ClientCommandSession struct {
 	channel   int
 
 	disposeOnce sync.Once
+
+	// connMu 保护conn和disposeFlag。
+	// conn是在异步的connect协程中创建的，而dispose可能在超时等情况下，在其他协程中先于conn的创建被调用
+	connMu      sync.Mutex
+	disposeFlag bool
 }
 
 type ModClientCommandSessionOption func(option *ClientCommandSessionOption)
@@ -139,18 +144,27 @@ func (session *ClientCommandSession) WaitChan() <-chan error {
 // ---------------------------------------------------------------------------------------------------------------------
 
 func (session *ClientCommandSession) WriteInterleavedPacket(packet []byte, channel int) error {
-	if session.conn == nil {
+	conn := session.getConn()
+	if conn == nil {
 		return base.ErrSessionNotStarted
 	}
-	_, err := session.conn.Write(packInterleaved(channel, packet))
+	_, err := conn.Write(packInterleaved(channel, packet))
 	return err
 }
 
 func (session *ClientCommandSession) RemoteAddr() string {
-	if session.conn == nil {
+	conn := session.getConn()
+	if conn == nil {
 		return ""
 	}
-	return session.conn.RemoteAddr().String()
+	return conn.RemoteAddr().String()
+}
+
+// getConn 其他协程（比如定时统计、rtcp发送）访问conn时使用，conn是在connect协程中创建的
+func (session *ClientCommandSession) getConn() connection.Connection {
+	session.connMu.Lock()
+	defer session.connMu.Unlock()
+	return session.conn
 }
 
 func (session *ClientCommandSession) Url() string {
@@ -174,6 +188,16 @@ func (session *ClientCommandSession) UniqueKey() string {
 }
 
 func (session *ClientCommandSession) doContext(ctx context.Context, rawUrl string) error {
+	// 注意，url的解析放在connect协程启动之前：Url()、AppName()、StreamName()、RawQuery()会被其他协程调用（比如统计、回调通知），
+	// 如果在connect协程中赋值，和它们之间存在竞态
+	var err error
+	session.rawUrl = rawUrl
+	session.urlCtx, err = base.ParseRtspUrl(rawUrl)
+	if err != nil {
+		_ = session.dispose(err)
+		return err
+	}
+
 	errChan := make(chan error, 1)
 
 	go func() {
@@ -321,13 +345,6 @@ func (session *ClientCommandSession) runReadLoop() {
 }
 
 func (session *ClientCommandSession) connect(rawUrl string) (err error) {
-	session.rawUrl = rawUrl
-
-	session.urlCtx, err = base.ParseRtspUrl(rawUrl)
-	if err != nil {
-		return err
-	}
-
 	Log.Debugf("[%s] > tcp connect.", session.uniqueKey)
 
 	// # 建立连接
@@ -335,9 +352,18 @@ func (session *ClientCommandSession) connect(rawUrl string) (err error) {
 	if err != nil {
 		return err
 	}
-	session.conn = connection.New(conn, func(option *connection.Option) {
+	c := connection.New(conn, func(option *connection.Option) {
 		option.ReadBufSize = readBufSize
 	})
+	session.connMu.Lock()
+	if session.disposeFlag {
+		// session已经被dispose了（比如超时），此时再保存连接的话，就没有人关闭它了
+		session.connMu.Unlock()
+		_ = c.Close()
+		return base.ErrSessionNotStarted
+	}
+	session.conn = c
+	session.connMu.Unlock()
 	Log.Debugf("[%s] < tcp connect. laddr=%s, raddr=%s", session.uniqueKey, conn.LocalAddr().String(), conn.RemoteAddr().String())
 
 	session.observer.OnConnectResult()
@@ -618,11 +644,15 @@ func (session *ClientCommandSession) dispose(err error) error {
 	var retErr error
 	session.disposeOnce.Do(func() {
 		Log.Infof("[%s] lifecycle dispose rtsp ClientCommandSession. session=%p, err=%+v", session.uniqueKey, session, err)
-		if session.conn == nil {
+		session.connMu.Lock()
+		session.disposeFlag = true
+		conn := session.conn
+		session.connMu.Unlock()
+		if conn == nil {
 			retErr = base.ErrSessionNotStarted
 			return
 		}
-		retErr = session.conn.Close()
+		retErr = conn.Close()
 	})
 	return retErr
 }
